@@ -183,6 +183,14 @@ def run_C13(tier, rnd, st, res):
     cases += list(gen_minimal(rnd))
     cases += list(gen_merge_histories(rnd, 15 if tier == 'quick' else 150))
     cases += list(gen_requested_version_gap(rnd, 40 if tier == 'quick' else 400))
+    # symbols of different kinds with the SAME capacity (1-M, 2-H, M4-L: 128 bits) and the same stream length, alternating: what
+    # fills the rest of the stream depends on the kind of symbol (terminator 4 vs 9 bits), never on what was encoded before
+    for n in range(1, 13):
+        for m in range(1, 13):
+            a = Case(content_for(rnd, 2, n), dict(version=1, error='M', boost_error=False, mask=0), 'capacity-collision')
+            b = Case(content_for(rnd, 2, m), dict(version='M4', error='L', boost_error=False, mask=0), 'capacity-collision')
+            c = Case(content_for(rnd, 2, n), dict(version=2, error='H', boost_error=False, mask=0), 'capacity-collision')
+            cases += [a, b, c] if (n + m) % 2 else [b, c, a]
     cases += list(gen_random(rnd, 300 if tier == 'quick' else 3000))
     cases = sweep(cases, st, res, ['c13'], want_c06=False, known_map=known_c13)
     sequence_block(tier, rnd, res, 'c13', known_c13)
@@ -479,6 +487,26 @@ def run_C07(tier, rnd, st, res):
             cases.append(Case(t, dict(mode=m) if m else {}, 'texts'))
     cases = sweep(cases, st, res, ['c07'], want_c06=False)
     overflow_cases(cases, st, res, 'c07')
+    # the most compact mode also through make_sequence: kanji text (no mode requested) split into symbols, odd character counts
+    lines, info = [], []
+    for t in ('漢字外', '点茗点茗点', '書読百遍義自', 'テストテスト漢', '茗荷茗'):
+        for n in (2, 3):
+            kw = dict(symbol_count=n)
+            try:
+                seq = segno.make_sequence(t, **kw)
+            except Exception as ex:  # noqa
+                res.violations.append(dict(property_field='c07', verdict=f'kanji-content-refused-by-make_sequence:{exc_name(ex)}', call=f'segno.make_sequence({t!r}, **{kw!r})',
+                                           replay=dict(content=t, kw=kw, api='make_sequence'), known_id=None))
+                continue
+            res.evaluations += 1
+            for q in seq:
+                lines.append(f'sym id={len(lines)} m={matrix_str(q.matrix)}')
+                info.append((t, kw))
+    for o, (t, kw) in zip(run_lines_parallel(JUDGE, lines), info):
+        kv = parse_kv(o)
+        if not (kv.get('segs') or '').startswith('8:'):
+            res.violations.append(dict(property_field='c07', verdict='sequence-symbol-of-kanji-content-not-in-kanji-mode:' + str(kv.get('segs')), call=f'segno.make_sequence({t!r}, **{kw!r})',
+                                       replay=dict(content=t, kw=kw, api='make_sequence'), judge={k2: kv[k2] for k2 in kv if k2 not in ('cw', 'bytes')}, known_id=None))
     finish(res, cases, 'all one-byte contents in auto mode and in each requested mode; two-byte contents (quick: class-stratified, thorough: all 65536); '
            'class-stratified longer contents; Unicode texts; refusals judged by the spec; distinct by (version, level, mask, segments, end)')
 
